@@ -312,6 +312,10 @@ class Found(Exception):
         self.detail = detail
 
 
+class StopSearch(Exception):
+    """raised by a test function to end hypothesis_search early (the check is already decided)"""
+
+
 def hypothesis_search(strategy, test, seed, max_examples, res, to_case=lambda x: x, max_findings=3):
     """Runs `test(example)` (which raises Found on an oracle failure) over examples drawn from
     `strategy`; every failure is shrunk by Hypothesis and recorded in res.violations with the
@@ -327,10 +331,15 @@ def hypothesis_search(strategy, test, seed, max_examples, res, to_case=lambda x:
         last = {}
         count = [0]
 
+        stopped = [False]
+
         def wrapped(ex):
             count[0] += 1
             try:
                 test(ex)
+            except StopSearch:
+                stopped[0] = True
+                raise
             except Found as f:
                 if f.signature in excluded:
                     return
@@ -352,6 +361,21 @@ def hypothesis_search(strategy, test, seed, max_examples, res, to_case=lambda x:
             remaining -= count[0]
         except hypothesis.errors.Unsatisfiable:
             remaining = 0
+        except StopSearch:
+            remaining = 0
+        except (hypothesis.errors.Flaky, BaseExceptionGroup) as e:
+            if stopped[0]:
+                break
+            # the failure did not reproduce while shrinking (timing-dependent): keep the last failing
+            # example unshrunk; the confirmation replays decide whether it is reported
+            if "found" in last:
+                f = last["found"]
+                res.violation(to_case(last["ex"]), f.signature, f.detail)
+                excluded.add(f.signature)
+                res.extra["flaky_during_shrink"] = res.extra.get("flaky_during_shrink", 0) + 1
+                remaining -= count[0]
+            else:
+                raise
         rounds += 1
     return excluded
 
